@@ -359,7 +359,7 @@ def func_case(ctx, P):
                                 None if dc else True)
                     if not dc:
                         ctx.count("pos:%s/%s" % (macname, VNAME[ver]))
-                    allk = ctx.quick and rot % 5 == 0 or \
+                    allk = ctx.quick and rot % 29 == 0 or \
                         (not ctx.quick and rot % 97 == 0)
                     for kind, b2, exp in corruptions(rng, st, body, n, p, rot,
                                                      allk):
@@ -385,9 +385,9 @@ def func_case(ctx, P):
                         if not ssl3:
                             if overlap == 1:
                                 tries = 4096
-                            elif overlap == 2 and searches < \
-                                    ctx.pick(1, 3) and rot % 7 == 0:
-                                tries = 400000
+                            elif overlap == 2 and searches < 1 and \
+                                    (res == 0 or not ctx.quick):
+                                tries = 200000
                                 searches += 1
                         body, ov, found = clamp_body(rng, st, n, p, tries)
                         kind = "clamp_overlap" if found else "clamp_nomatch"
@@ -678,6 +678,58 @@ def rec_case(ctx, P):
             ctx.count("rec_negative_recipe_control")
     except Exception:   # noqa
         pass
+
+    # ---- record whose padding overlaps the MAC of the empty content ------
+    # (body shorter than pad+1+MAC: no conforming sender can produce it)
+    if not etm:
+        k = (-maclen) % block or block
+        ctype = 23
+        seqn = None
+        if ver == (3, 0):
+            if k <= block - 1:
+                p = rng.randrange(k, block)
+                seqn = rng.randrange(0, 1000)
+                mac = spec_mac(macname, ver, keys.cmac,
+                               seqn.to_bytes(8, "big"), ctype, b"")
+                plain = bytearray(mac + rng.randbytes(k - 1) + bytes([p]))
+        else:
+            p = k + block * rng.randrange(0, 3)
+            for t in range(8192):
+                mac = spec_mac(macname, ver, keys.cmac, t.to_bytes(8, "big"),
+                               ctype, b"")
+                if mac[-1] == p:
+                    seqn = t
+                    plain = bytearray(mac + bytes([p]) * p)
+                    break
+        if seqn is not None:
+            rl2, sock2 = receiver(su, ver, etm, secrets)
+            rl2.changeReadState()
+            rl2._readState.seqnum = seqn
+            s2 = Sender(su, ver, etm, keys)
+            s2.seq = seqn
+            wire = s2.seal(ctype, plain, rng)
+            ctx.ev()
+            ctx.count("rec_negative")
+            ctx.count("rneg:clamp_overlap")
+            try:
+                hdr, got = recv_one(rl2, sock2, wire)
+            except TLSBadRecordMAC:
+                ctx.count("rec_negative_rejected")
+            except Exception as e:   # noqa
+                ctx.violation({"clause": "record_reject_wrong_error",
+                               "fam": fam, "mode": mode,
+                               "corrupt": "clamp_overlap",
+                               "exc": type(e).__name__},
+                              wit_r(seq=seqn, ctype=ctype, pad=p, wire=wire),
+                              "raised %r, not TLSBadRecordMAC" % (e,))
+            else:
+                ctx.violation({"clause": "record_false_accept", "fam": fam,
+                               "mode": mode, "corrupt": "clamp_overlap"},
+                              wit_r(seq=seqn, ctype=ctype, pad=p, wire=wire,
+                                    plain=plain, got=got),
+                              "record whose body (%d bytes) is shorter than "
+                              "pad %d + 1 + MAC %d accepted, yields %d bytes"
+                              % (len(plain), p, maclen, len(got)))
 
     # ---- sender side: tlslite writes, the specification reads -----------
     wl, wsock = receiver(su, ver, etm, secrets, client=True)
